@@ -1,4 +1,5 @@
 import IsalVerif.Impl.HashMB
+import IsalVerif.Lemmas.Settle
 import IsalVerif.Spec.Sha1
 import IsalVerif.Spec.Sha256
 import IsalVerif.Spec.Sha512
@@ -105,6 +106,37 @@ def hashStep (I : Inst) (s : HSt I) (toks : List String) : HSt I × String :=
     match r? with
     | none => (s, "out-of-fuel")
     | some r => ({ s with m := r.1 }, showRet I.showD r.1 r.2 s.sync)
+  | ["SB", c, fl, len, seed, off] =>
+    -- C15: a segment of up to 2^32-1 bytes taken cyclically from a 2 MiB pattern at offset `off`,
+    -- submitted to an idle context of an otherwise empty manager and flushed out.  By theorems C01
+    -- / C06 the context then holds `absorb` of its stream (digest after the whole blocks, tail) or,
+    -- after LAST, `target … true`; `absorb` is evaluated 4 KiB at a time (`absorb_segments`).
+    let c := c.toNat!; let fl := fl.toNat!; let len := len.toNat!; let off := off.toNat!
+    let P := 2 * 1024 * 1024
+    let pat := (xsBytes (UInt64.ofNat seed.toNat!) P).toArray
+    let x := s.m.ctxs c
+    if fl / 4 ≠ 0 || x.processing || (x.complete && fl % 2 == 0) then (s, "bad-op") else
+    let s0 : S UInt8 I.D := if fl % 2 == 1 then ⟨I.A.init, []⟩ else ⟨x.dig, x.part⟩
+    let total0 := if fl % 2 == 1 then 0 else x.total
+    let chunk := 4096
+    let rec go (fuel : Nat) (st : S UInt8 I.D) (pos : Nat) : S UInt8 I.D :=
+      match fuel with
+      | 0 => st
+      | fuel+1 =>
+        if pos ≥ len then st else
+        let n := min chunk (len - pos)
+        let data := (List.range n).map fun i => pat[(off + pos + i) % P]!
+        go fuel (absorb I.A.B I.A.f st data) (pos + n)
+    let st := go (len / chunk + 2) s0 0
+    let total := (total0 + len) % 2^64
+    let x' : Ctx I.D :=
+      if fl / 2 % 2 == 1 then
+        { x with dig := I.A.fin ((pad I.A st.part total).foldl I.A.f st.dig), part := st.part, total := total,
+                 error := 0, complete := true, processing := false, last := false, incoming := [] }
+      else { x with dig := st.dig, part := st.part, total := total, error := 0, complete := false,
+                    processing := false, last := false, incoming := [] }
+    let m' := setCtx s.m c x'
+    ({ s with m := m' }, showRet I.showD m' (some c) true)
   | _ => (s, "bad-op")
 
 end IsalVerif.Driver
